@@ -123,6 +123,8 @@ func inject(sc pipe.Scenario, f fault) pipe.Scenario {
 					c.Gens[gi].Steps[k] = other
 				}
 			}
+		default: // the families of family.go: error values, places of the syntax error
+			injectFamily(&c, gi, &st, f)
 		}
 		c.Gens[gi].Steps[f.Key] = st
 	}
@@ -146,7 +148,7 @@ func points(sc pipe.Scenario) []point {
 	return ps
 }
 
-func corner() []input {
+func corner(full bool) []input {
 	// two packages with previous outputs and a previous sum, two generators, All
 	m := pipe.Module{ModPath: "example.com/m", GoVer: "1.22", Pkgs: []pipe.Pkg{
 		{Dir: "a", Name: "a", Types: []pipe.Type{{Name: "T0", Enabled: []string{"g1", "g2"}}, {Name: "T1", Enabled: []string{"g1"}}, {Name: "T2", Enabled: []string{"g1"}}}},
@@ -175,6 +177,8 @@ func corner() []input {
 			out = append(out, input{Scenario: inject(base, f), Fault: &f})
 		}
 	}
+	out = append(out, familyCorner(base, full)...)
+	out = append(out, threePackages(full)...)
 	return out
 }
 
@@ -185,7 +189,7 @@ func (prop) Generate(r *core.RNG, tier string) []json.RawMessage {
 		modules, perModule, crashes = 16, 120, 3
 	}
 	var out []json.RawMessage
-	for _, in := range corner() {
+	for _, in := range corner(tier == "thorough") {
 		out = append(out, enc(in))
 	}
 	for i := 0; i < modules; i++ {
@@ -226,6 +230,7 @@ func (prop) Generate(r *core.RNG, tier string) []json.RawMessage {
 				}
 			}
 		}
+		fs = append(fs, familySample(r, sc, tier)...)
 		for _, f := range fs {
 			f := f
 			out = append(out, enc(input{Scenario: inject(sc, f), Fault: &f}))
@@ -238,7 +243,7 @@ func (prop) Generate(r *core.RNG, tier string) []json.RawMessage {
 		out = append(out, enc(input{Scenario: sc, Crash: true}))
 	}
 	if tier == "thorough" {
-		c := corner()[0]
+		c := corner(false)[0]
 		c.Crash = true
 		out = append(out, enc(c))
 	}
@@ -332,7 +337,12 @@ func (prop) Run(raw json.RawMessage, scratch string) core.Result {
 		case last == "kill" && obs.Run.Signal == "":
 			res.GoViolations = append(res.GoViolations, "SIGKILL inside a generator but the child was not reported as killed")
 		case last != "exit" && last != "kill" && last != "panic":
-			res.GoViolations = append(res.GoViolations, "the process died without a scripted death: "+tail(obs.Run.Stderr))
+			if line := panicLine(obs.Run.Stderr); line != "" {
+				// not a harness failure: the code under test panicked where the statement wants an error value
+				res.GoViolations = append(res.GoViolations, "Execute did not return an error naming generator and package or the syntax position: it panicked ("+line+")")
+			} else {
+				res.GoViolations = append(res.GoViolations, "the process died without a scripted death: "+tail(obs.Run.Stderr))
+			}
 		}
 	}
 
@@ -373,6 +383,7 @@ func (prop) Run(raw json.RawMessage, scratch string) core.Result {
 	} else {
 		res.Tags = append(res.Tags, "fault:none")
 	}
+	res.Tags = append(res.Tags, familyTags(in, obs)...)
 	res.Tags = append(res.Tags, "outcome:"+sum.Outcome)
 	if in.All {
 		res.Tags = append(res.Tags, "all")
